@@ -31,6 +31,7 @@ def cb(item, *sketches, logdir=None, die_item=None, tag=None, expect=None, table
         import fakemp
         w = fakemp.current_worker(sched)
         counts[w] = counts.get(w, 0) + 1
+        sched.yield_point()      # processing takes time: other processes may run between dequeue and update
         if die_at is not None and die_at == (w, counts[w]):
             raise fakemp.WorkerDeath("worker %s dies on its item #%d" % (w, counts[w]))
     else:
